@@ -216,7 +216,7 @@ def gen_maps(rng, n_sessions, per):
             else:
                 xs.add(rng.randrange(lo - w // 8, hi + w // 8 + 1))
         scen.append({"kind": "map", "ek": ek, "pw": pw, "g": g, "lo": lo, "hi": hi, "olo": olo, "ohi": ohi,
-                     "exact": False, "xs": sorted(xs), "src": "random-sweep"})
+                     "exact": False, "desc": k % 3 == 2, "xs": sorted(xs), "src": "random-sweep"})
     return scen
 
 
